@@ -56,6 +56,8 @@ def main():
             shutil.copy(os.path.join("/repo", f), os.path.join(wt, f))
     try:
         demo_src = os.path.join(a.src, "demo_test.go")
+        if not os.path.exists(demo_src) and os.path.exists(demo_src + ".txt"):
+            demo_src += ".txt"   # stored form under /verif/seeded
         demo_dst = os.path.join(wt, a.demo_dir, a.demo_name)
         run = None
         if os.path.exists(demo_src):
@@ -115,8 +117,9 @@ def finish(a, res, wt, verdicts):
         d = os.path.join("/verif/seeded", res["name"])
         os.makedirs(d, exist_ok=True)
         for f in ("patch.diff", "demo_test.go"):
-            if os.path.exists(os.path.join(a.src, f)):
-                shutil.copy(os.path.join(a.src, f), os.path.join(d, f if f != "demo_test.go" else "demo_test.go.txt"))
+            dst = os.path.join(d, f if f != "demo_test.go" else "demo_test.go.txt")
+            if os.path.exists(os.path.join(a.src, f)) and os.path.abspath(os.path.join(a.src, f)) != os.path.abspath(dst):
+                shutil.copy(os.path.join(a.src, f), dst)
         meta = {}
         if os.path.exists(os.path.join(a.src, "meta.json")):
             try:
